@@ -169,6 +169,7 @@ func runCase(c *Case, res []*regexp.Regexp, trace bool) (r Result) {
 	cur := root
 	var forget []string
 	var sent []*models.Item
+	var uncle *models.Item
 	defer func() {
 		// un-see every URL this case recorded, so that cases stay independent
 		present := seencheck.VerifC05Forget(forget)
@@ -221,6 +222,18 @@ func runCase(c *Case, res []*regexp.Regexp, trace bool) (r Result) {
 		}
 		add := func(n *models.Item) {
 			if err := cur.AddChild(n, kind); err != nil {
+				panic("engine: " + err.Error())
+			}
+		}
+		if c.Pos.Sib == 4 && !last {
+			// two nodes at this level, each of which will have a child: the level below hangs off two parents,
+			// the tested node off the second one
+			uncle = newItem(uncleURL)
+			add(uncle)
+		}
+		if c.Pos.Sib == 4 && last && uncle != nil {
+			uncle.SetStatus(models.ItemArchived)
+			if err := uncle.AddChild(newItem(sibURL), models.ItemGotChildren); err != nil {
 				panic("engine: " + err.Error())
 			}
 		}
